@@ -2,9 +2,10 @@
    Only statements here; proofs live in Proofs/C06_*.v.  Model: Model/Bilinear.v (one term for every arithmetic);
    RO = reals, RN = reals with a NaN (option R, None = NaN), F64 = binary64.
    Corner order: p1 upper left, p2 upper right, p3 lower left, p4 lower right; s horizontal, t vertical. *)
-From Coq Require Import Reals ZArith List Bool Lra PrimFloat.
+From Coq Require Import Reals ZArith List Bool Lra PrimFloat Sorted.
 From PR Require Import Base.Num Base.RNum Base.F64 Model.Bilinear Model.BilinearRN Gen.GenC06
-     Proofs.C06_real Proofs.C06_rn Proofs.C06_branches Proofs.C06_pixel Proofs.C06_gen Proofs.C06_f64 Proofs.C06_slices.
+     Model.BilinearWrap Proofs.C04_knn
+     Proofs.C06_real Proofs.C06_rn Proofs.C06_branches Proofs.C06_pixel Proofs.C06_gen Proofs.C06_f64 Proofs.C06_slices Proofs.C06_wrap.
 Import ListNotations.
 Open Scope R_scope.
 
@@ -192,6 +193,60 @@ Proof.
   split; [intros; apply gen_frac_parallelogram_eq|]. intros; apply gen_resample_eq.
 Qed.
 Print Assumptions C06_gen_kernels_are_model.
+(* ... and so are the two quadratic branches (the star-argument / keyword calls included) and _invalid_s_and_t_to_nan *)
+Theorem C06_gen_branches_are_model : forall (T : Type) (OP : ops T),
+  (forall t s, gen_invalid_to_nan OP t s = invalid_to_nan OP (t, s)) /\
+  (forall p1 p2 p3 p4 oy ox, gen_frac_irregular OP (p1, p2, p3, p4) oy ox = frac_irregular OP p1 p2 p3 p4 oy ox) /\
+  (forall p1 p2 p3 p4 oy ox, gen_frac_uprights OP (p1, p2, p3, p4) oy ox = frac_uprights OP p1 p2 p3 p4 oy ox).
+Proof.
+  intros T OP. split; [intros; apply gen_invalid_to_nan_eq|]. split; [intros; apply gen_frac_irregular_eq|].
+  intros; apply gen_frac_uprights_eq.
+Qed.
+Print Assumptions C06_gen_branches_are_model.
+
+(* ---- the wrappers of the resampler classes.
+   Range clip (XArrayBilinearResampler._limit_output_values_to_input, legacy get_sample_from_bil_info): the identity on
+   every value the per-pixel kernel produces, for any non-negative margin; so the clipping (xarray, legacy) and the
+   non-clipping (numpy) entry points agree in exact arithmetic.  The code's margin is positive. *)
+Theorem C06_range_clip_keeps_pixel : forall data l ox oy v dmin dmax eps fill,
+  pixel RN data l ox oy = Some v -> (forall i d, data i = Some d -> dmin <= d <= dmax) -> 0 <= eps ->
+  limit_output RN (Some dmin) (Some dmax) (Some eps) fill (pixel RN data l ox oy) = Some v.
+Proof. exact pixel_survives_range_clip. Qed.
+Print Assumptions C06_range_clip_keeps_pixel.
+Theorem C06_range_clip_nan_is_fill : forall dmin dmax eps fill, limit_output RN dmin dmax eps fill None = fill.
+Proof. exact limit_output_RN_nan. Qed.
+Print Assumptions C06_range_clip_nan_is_fill.
+Theorem C06_range_margin_positive : forall dmin dmax, 0 < range_margin RO dmin dmax.
+Proof. exact range_margin_RO_pos. Qed.
+Print Assumptions C06_range_margin_positive.
+
+(* _reshape_to_target_area (both classes): pixel i of the full target holds the result number rank(i) when the pixel has
+   valid lon/lat and the fill otherwise; every band of 3-D data is placed on its own *)
+Theorem C06_scatter_spec : forall (fill d : R) valid res i, (i < length valid)%nat ->
+  length res = length (filter (fun b => b) valid) ->
+  length (scatter fill valid res) = length valid /\
+  nth i (scatter fill valid res) d = if nth i valid false then nth (rank valid i) res d else fill.
+Proof. intros. split; [apply scatter_length|apply scatter_nth; assumption]. Qed.
+Print Assumptions C06_scatter_spec.
+Theorem C06_scatter_bands_independent : forall (fill : R) valid bands b,
+  nth b (scatter_bands fill valid bands) [] = match nth_error bands b with Some r => scatter fill valid r | None => [] end.
+Proof. intros. apply scatter_bands_nth. Qed.
+Print Assumptions C06_scatter_bands_independent.
+Example C06_scatter_ex : scatter 0 [true; false; true; true] [1; 2; 3] = [1; 0; 2; 3].
+Proof. reflexivity. Qed.
+
+(* ---- composition with the kd-tree contract (C04's knn_slots, an oracle checked on every run by C02/C04).
+   H_sorted: the neighbours come in distance order; H_knn: they are the k nearest valid sources inside the radius.
+   Then the corner chosen for a quadrant is the NEAREST source of that quadrant: no listed neighbour of the quadrant and no
+   source left out of the list is nearer. *)
+Theorem C06_corner_is_nearest_in_quadrant : forall (D : Z -> R) (n : Z) (radius ox oy : R) (l : list (R * R * Z)) (ds : list R),
+  StronglySorted (fun a b => D (nb_i a) <= D (nb_i b)) l ->
+  knn_slots D n radius (map (@nb_i R) l) ds ->
+  forall q c, first_valid (in_quadrant RO q ox oy) l = Some c ->
+  (forall m, In m l -> in_quadrant RO q ox oy m = true -> D (nb_i c) <= D (nb_i m)) /\
+  (forall j, (0 <= j < n)%Z -> D j < radius -> ~ In j (map (@nb_i R) l) -> D (nb_i c) <= D j).
+Proof. intros D n radius ox oy l ds Hs Hk. exact (corner_is_nearest_in_quadrant D n radius ox oy l Hs ds Hk). Qed.
+Print Assumptions C06_corner_is_nearest_in_quadrant.
 
 (* ---- look-up tables: (line, column) recombine to the flat position of the compacted source pixel the index refers
    to, and that pixel is a valid one *)
